@@ -142,8 +142,8 @@ def type_ok(kind: int, path: str, v: Any) -> bool:
 # ------------------------------------------------------------------------------------------------ pure path kernels
 
 
-@obligation(quick=150, thorough=600, partitions_quick=[f"kind == {k}" for k in range(5)],
-            partitions_thorough=[f"kind == {k} and s0 {q}" for k in range(5) for q in ("< 4", ">= 4")],
+@obligation(quick=150, thorough=600, partitions_quick=["kind <= 1", "kind == 2", "kind >= 3"],
+            partitions_thorough=[f"kind == {k}" for k in range(5)],
             what="get_by_path (with and without default) and traverse_path_step agree with the nested dict/list reference (traced)",
             bounds={"start states": "dict / list / DictState / typed / inherited typed, leaf atom 1 or 'ab'", "segments": "pool of 8", "path length": "1..2 / 1..3"})
 def ob_path_get(kind: int, ai: int, n: int, s0: int, s1: int, s2: int) -> bool:
@@ -152,29 +152,31 @@ def ob_path_get(kind: int, ai: int, n: int, s0: int, s1: int, s2: int) -> bool:
     pre: (n >= 2 or s1 == 0) and (n >= 3 or s2 == 0)
     post: _
     """
-    a = pickb(START_ATOMS, ai)
-    root = make_root(kind, a)
-    model = to_plain(make_root(kind, a))
+    a, kind = pickb(START_ATOMS, ai), cint(kind, 0, 4)
     path = make_path(n, s0, s1, s2)
-    if str_descent(model, path):
-        return True  # OUTSIDE
-    try:
-        want = ref_get(model, path)
-        missing = False
-    except Missing:
-        want, missing = None, True
-    got = get_by_path(root, path, DEFAULT)
+    with untraced():  # building the inputs / the reference verdict is not the code under test
+        root = make_root(kind, a)
+        model = to_plain(make_root(kind, a))
+        if str_descent(model, path):
+            return True  # OUTSIDE
+        try:
+            want = ref_get(model, path)
+            missing = False
+        except Missing:
+            want, missing = None, True
+    got = get_by_path(root, path, DEFAULT)  # traced
     try:
         got2 = get_by_path(root, path)
         raised = False
     except ValueError:
         got2, raised = None, True
-    if missing:
-        return got == DEFAULT and raised
-    return (not raised) and deq(to_plain(got), want) and deq(to_plain(got2), want)
+    with untraced():
+        if missing:
+            return got == DEFAULT and raised
+        return (not raised) and deq(to_plain(got), want) and deq(to_plain(got2), want)
 
 
-@obligation(quick=150, thorough=600, partitions_quick=[f"kind == {k}" for k in range(5)],
+@obligation(quick=150, thorough=600, partitions_quick=["kind <= 1", "kind == 2", "kind >= 3"],
             partitions_thorough=[f"kind == {k} and s0 {q}" for k in range(5) for q in ("< 4", ">= 4")],
             what="set_by_path / assign_path_step agree with the reference: same failure, same resulting state, value readable back (traced)",
             bounds={"start states": 5, "segments": "pool of 8", "path length": "1..2 / 1..3", "values": "5 / {'a': 1} / [1, 'z']"})
@@ -184,30 +186,34 @@ def ob_path_set(kind: int, ai: int, n: int, s0: int, s1: int, s2: int, vi: int) 
     pre: (n >= 2 or s1 == 0) and (n >= 3 or s2 == 0) and vi in (0, 6, 7)
     post: _
     """
-    a = pickb(START_ATOMS, ai)
-    root = make_root(kind, a)
-    model = to_plain(make_root(kind, a))
+    a, kind = pickb(START_ATOMS, ai), cint(kind, 0, 4)
     path = make_path(n, s0, s1, s2)
     v = pickb(VALS, vi)
-    if not type_ok(kind, path, v):
-        return True
+    with untraced():
+        if not type_ok(kind, path, v):
+            return True
+        root = make_root(kind, a)
+        model = to_plain(make_root(kind, a))
+        try:
+            ref_set(model, path, copy.deepcopy(v), fixed_keys(kind))
+            ref_failed = False
+        except RefError:
+            ref_failed = True
+        v2 = copy.deepcopy(v)
     try:
-        ref_set(model, path, copy.deepcopy(v), fixed_keys(kind))
-        ref_failed = False
-    except RefError:
-        ref_failed = True
-    try:
-        set_by_path(root, path, copy.deepcopy(v))
+        set_by_path(root, path, v2)  # traced
         failed = False
     except Exception:
         failed = True
     if failed != ref_failed:
         return False
-    if not deq(to_plain(root), model):
-        return False
-    if failed or str_descent(model, path):
-        return True
-    return deq(to_plain(get_by_path(root, path, DEFAULT)), v)
+    back = DEFAULT if failed else get_by_path(root, path, DEFAULT)  # traced
+    with untraced():
+        if not deq(to_plain(root), model):
+            return False
+        if failed or str_descent(model, path):
+            return True
+        return deq(to_plain(back), v)
 
 
 M_DS, M_T, M_TC, M_UNREL, M_DS2 = 0, 1, 2, 3, 4
@@ -234,8 +240,9 @@ def ob_merge_state(ck: int, ik: int) -> bool:
     post: _
     """
     ck, ik = cint(ck, 0, 4), cint(ik, 0, 4)
-    cur, inc = _merge_operand(ck, 1), _merge_operand(ik, 2)
-    before = to_plain(cur)
+    with untraced():
+        cur, inc = _merge_operand(ck, 1), _merge_operand(ik, 2)
+        before = to_plain(cur)
     try:
         out = merge_state(cur, inc)
         failed = False
@@ -323,7 +330,6 @@ def ob_store_paths(kind: int, n: int, s0: int, s1: int, s2: int, vi: int) -> boo
     """
     pre: kind in (2, 4) and 1 <= n <= NPATH and 0 <= s0 < NSEG and 0 <= s1 < NSEG and 0 <= s2 < NSEG and 0 <= vi < NV
     pre: (n >= 2 or s1 == 0) and (n >= 3 or s2 == 0)
-    pre: NPATH > 2 or n == 1 or vi in (0, 6, 7, NV - 1)
     post: _
     """
     kind, n = cint(kind, 0, 4), cint(n, 1, 3)
